@@ -224,6 +224,8 @@ def parse_out(text):
             o["missing_parents"] = int(t[2])
         elif k == "LNV":
             o["lnv"] = [int(v) for v in t[2:]]
+        elif k == "YSIZE":
+            o["ysize"] = [int(v) for v in t[1:4]]
         elif k == "FINAL":
             o["final"] = {"loaded": int(t[2]), "needed": int(t[4])}
         elif k == "RESULT":
@@ -289,6 +291,11 @@ def blackbox(c, o, stats):
     stats["max_in_flight"] = max(stats.get("max_in_flight", 0), mx)
     if mx > jobs:
         v.append(("too-many-concurrent-calls", "%d model calls in flight with %d jobs" % (mx, jobs)))
+    # the buffer handed to the model: without an initial guess it has the documented size outputs x samples (a longer one is stored whole and shifts later samples)
+    ys = o.get("ysize") if isinstance(o, dict) else None
+    if ys and ys[0] > 0:
+        v.append(("model-buffer-size", "%d model calls received an output buffer of the wrong size without an initial guess, first: %d samples x %d outputs but y.size() = %d"
+                  % (ys[0], ys[1], outs, ys[2])))
     # calls per point
     cnt, val = {}, {}
     for cl in calls:
